@@ -279,4 +279,31 @@ def finish : List (String × JGroup JMsg) → List (String × JGroup JMsg) × Li
 
 end JNode
 
+/-! ### whole runs -/
+
+/-- What reaches the join node, in arrival order. -/
+inductive JOp where
+  | point (src : Nat) (m : JMsg)
+  | barrier (src : Nat) (grp : String) (t : Int)
+deriving Repr
+
+namespace JNode
+def step (cfg : JCfg) (nd : JNode) : JOp → JNode × List (JSet JMsg) × Status
+  | .point src m => nd.point cfg src m
+  | .barrier src grp t => nd.barrier cfg src grp t
+
+def runOps (cfg : JCfg) : JNode → List JOp → JNode × List (JSet JMsg) × Status
+  | nd, [] => (nd, [], .ok)
+  | nd, op :: ops =>
+    let r := nd.step cfg op
+    let r' := runOps cfg r.1 ops
+    (r'.1, r.2.1 ++ r'.2.1, r.2.2.and r'.2.2)
+
+/-- A whole run: the arrivals in their arrival order, then `Finish`. -/
+def run (cfg : JCfg) (ops : List JOp) : JNode × List (JSet JMsg) × Status :=
+  let r := runOps cfg init ops
+  let f := finish r.1.groups
+  ({ groups := f.1 }, r.2.1 ++ f.2.1, r.2.2.and f.2.2)
+end JNode
+
 end Kap.C12
